@@ -3,6 +3,7 @@ package main
 import (
 	"fmt"
 	"go/token"
+	"sort"
 	"strings"
 
 	"golang.org/x/tools/go/ssa"
@@ -194,6 +195,49 @@ func runC19(c *Check, a *Analysis) {
 			}
 		})
 		c.Ob("R-CTX-BUFFER", sc.key(gb, "comma-ok []byte assertion"), gb.Pos(), ok && n > 0, ifs(!(ok && n > 0), "GetContextBuffer asserts the context value without comma-ok: a non-[]byte value panics"))
+		// the asserted bytes are what is returned, exactly when the assertion succeeded
+		okFlow := false
+		eachInstr(gb, func(in ssa.Instruction) {
+			ta, isT := in.(*ssa.TypeAssert)
+			if !isT || !ta.CommaOk || ta.Referrers() == nil {
+				return
+			}
+			var val, okv ssa.Value
+			for _, r := range *ta.Referrers() {
+				if e, isE := r.(*ssa.Extract); isE {
+					if e.Index == 0 {
+						val = e
+					} else {
+						okv = e
+					}
+				}
+			}
+			if val == nil || okv == nil || val.Referrers() == nil {
+				return
+			}
+			for _, r := range *val.Referrers() {
+				phi, isPhi := r.(*ssa.Phi)
+				if !isPhi {
+					continue
+				}
+				for i, e := range phi.Edges {
+					if e != val {
+						continue
+					}
+					pred := phi.Block().Preds[i]
+					g, _ := p.guardedBy(pred.Instrs[len(pred.Instrs)-1], func(cond ssa.Value) (bool, bool) {
+						if p.canon(cond) == okv {
+							return true, true
+						}
+						return false, false
+					})
+					if g {
+						okFlow = true
+					}
+				}
+			}
+		})
+		c.Ob("R-CTX-BUFFER", sc.key(gb, "returns the asserted bytes when ok"), gb.Pos(), okFlow, ifs(!okFlow, "GetContextBuffer does not hand out the caller's buffer when the context holds one (the context buffer is silently ignored)"))
 	}
 
 	c.Rule("R-CTX-FORWARD", "Transport.CallWithContext and Client.CallWithContext pass their own ctx parameter on unchanged", 3)
@@ -480,6 +524,32 @@ func runC20(c *Check, a *Analysis) {
 		c.Ob("R-CLOSE-SIGNALS", spec.fn+"#close(done)", fn.Pos(), found, ifs(!found, spec.fn+" never closes the done channel: the periodic goroutine (and Fallback timers) outlive Close"))
 	}
 
+	if cl := p.Fn("(*Client).Close"); cl != nil {
+		n := 0
+		for _, cc := range invokesIn(cl, "RoundTripper", "Close") {
+			n++
+			g, _ := p.guardedBy(cc.(ssa.Instruction), negate(matchFieldNil(p, "Client", "Transport")))
+			c.Ob("R-CLOSE-SIGNALS", "(*Client).Close#closes its transport when it has one", p.InstrPos(cc), g, ifs(!g, "Client.Close does not close a configured transport (or dereferences a nil one)"))
+		}
+		if n == 0 {
+			c.Ob("R-CLOSE-SIGNALS", "(*Client).Close#closes its transport when it has one", cl.Pos(), false, "Client.Close never closes its transport: pooled connections stay open")
+		}
+	}
+	for _, fn := range p.Fns {
+		eachInstr(fn, func(in ssa.Instruction) {
+			cc, ok := in.(*ssa.Call)
+			if !ok || !strings.HasPrefix(calleeName(cc), "sync/atomic.CompareAndSwap") || len(cc.Call.Args) != 3 {
+				return
+			}
+			o, okO := constInt(cc.Call.Args[1])
+			nw, okN := constInt(cc.Call.Args[2])
+			if !okO || !okN {
+				return
+			}
+			c.Ob("R-CLOSE-SIGNALS", sc.key(fn, "CAS flips the flag"), p.InstrPos(in), o != nw, ifs(o == nw, "a compare-and-swap that does not change the flag never marks the object closed: Close is not idempotent and closed is never observed"))
+		})
+	}
+
 	// ---- R-CLOSE-ONCE
 	c.Rule("R-CLOSE-ONCE", "every close(ch) is reachable only through the success edge of a compare-and-swap; Conn.Close tests and sets `closing` in one critical section and reports ErrShutdown when already set; Transport.Close/Server.Close return nil; Client.Close returns only its RoundTripper's result; codec Close sets the closed flag before closing the transport", 8)
 	for _, fn := range p.Fns {
@@ -702,6 +772,34 @@ func runC12(c *Check, a *Analysis) {
 				c.Undecided("R-RESOLVE-AGREE", spec.ctor+" not called from "+fname(spec.top))
 			}
 		}
+	}
+
+	c.Rule("R-REGISTRY", "the name registries are initialised with the documented names: body codecs json/code/pb, header encoders json/code/pb, sockets http/tcp/unix/ws/inproc", 3)
+	regSpec := map[string][]string{"RegisterCodec": {"code", "json", "pb"}, "RegisterHeaderEncoder": {"code", "json", "pb"}, "RegisterSocket": {"http", "inproc", "tcp", "unix", "ws"}}
+	got := map[string][]string{}
+	for _, fn := range p.Fns {
+		if !strings.HasPrefix(fn.Name(), "init") {
+			continue
+		}
+		eachInstr(fn, func(in ssa.Instruction) {
+			cc, ok := in.(*ssa.Call)
+			if !ok {
+				return
+			}
+			n := calleeName(cc)
+			if _, want := regSpec[n]; !want {
+				return
+			}
+			if cst, isC := cc.Call.Args[0].(*ssa.Const); isC {
+				got[n] = append(got[n], strings.Trim(constStr(cst), "\""))
+			}
+		})
+	}
+	for n, want := range regSpec {
+		g := append([]string{}, got[n]...)
+		sort.Strings(g)
+		okr := strings.Join(g, ",") == strings.Join(want, ",")
+		c.Ob("R-REGISTRY", n+"#documented names", 0, okr, ifs(!okr, fmt.Sprintf("%s registers %v at start-up, documented %v: a client and a server configured by name no longer find the same implementation", n, g, want)))
 	}
 
 	// ---- R-FUNNEL
